@@ -118,6 +118,29 @@ def main(a):
         return None
     c.suite("matrix", progs, nontrivial=lambda r: cells[r.sexp][:4] if cells[r.sexp][3] != "inrange" or
             cells[r.sexp][2] in RANGE[cells[r.sexp][0]] else None, known_cell=known_cell, max_report=6, shrink=False)
+    # chained and ternary assignment statements (w = x = V;  x = c ? V : 0;): the S-expression program stores in two plain
+    # statements; the rendered text is rewritten to the chained form (refrun.join_chains), which means the same
+    chain = []
+    for ty in TYPES:
+        if ty.startswith("u") or ty == "char":
+            continue          # the value of an assignment to an unsigned target after clamping is not specified
+        for v in values(ty):
+            for via_var in (False, True):
+                src = "(var src)" if via_var else lit(v)
+                pre = "(decl - long src %s) " % lit(v) if via_var else ""
+                for body in ("(decl - %s x (lit 0)) (decl - long w (lit 7)) (assign (var x) %s) (assign (var w) (var x)) (print (e (var w)) (e (var x)))" % (ty, src),
+                             "(decl - %s x (lit 0)) (decl - %s y (lit 0)) (assign (var x) %s) (assign (var y) (var x)) (print (e (var y)) (e (var x)))" % (ty, ty, src)):
+                    chain.append("(prog (structs) (globals) (funcs (func main int (params) (%s%s (print (s \"END\")) (ret (lit 0))))))" % (pre, body))
+    import refrun
+    c.suite("chained-assignment", chain, nontrivial=lambda r: hash(r.sexp), max_report=4, source_transform=refrun.join_chains)
+    tern = []
+    for ty in TYPES:
+        for v in values(ty):
+            for cond in (1, 0):
+                a_, b_ = (lit(v), lit(0)) if cond else (lit(0), lit(v))
+                tern.append("(prog (structs) (globals) (funcs (func main int (params) ((decl - %s x (lit 0)) (decl - int c (lit %d)) "
+                            "(assign (var x) (tern (var c) %s %s)) (print (e (var x))) (print (s \"END\")) (ret (lit 0))))))" % (ty, cond, a_, b_))
+    c.suite("ternary-assignment", tern, nontrivial=lambda r: hash(r.sexp), max_report=4, shrink=False)
     n = 500 if quick else 50000
     rnd = [gen_core.gen_program(a.seed, 41, k, c.gates, size=25, features={"narrow": True})[0] for k in range(n)]
     c.suite("random-narrow", rnd, nontrivial=lambda r: hash(r.sexp) if r.status == "exit1:range" else None)
